@@ -48,8 +48,10 @@ Definition cell_add (old n : Z) : Z := if W64 <=? old + n then W64 - 1 else old 
 Inductive kind := Adder | Changer.
 
 (* what a changer installs: a mapping of a new file (rotation / first open),
-   a new mapping of the current file (extension), or nothing (failed open) *)
-Inductive target := NewFile | SameFile | NoFile.
+   a new mapping of the current file (extension), nothing (failed open), or
+   a mapping of a file that exists already and has no room left (first open,
+   in a process started later the same day, of a file another process filled) *)
+Inductive target := NewFile | SameFile | NoFile | FullFile.
 
 Inductive pc :=
   | AIdle                         (* Add not called yet *)
@@ -77,6 +79,7 @@ Record thread := mkT {
   t_amt : Z;           (* Add's n, or the extra being flushed *)
   t_old : Z;           (* cell value read *)
   t_prev : option nat; (* changer: previous mapping *)
+  t_prev2 : option nat; (* any thread: the mapping its own lookup replaced when it extended the file *)
   t_tgt : target;
   t_after : pc         (* changer: continuation after a CNop run *)
 }.
@@ -125,17 +128,17 @@ Definition set_cell (s : shared) (g : nat) (v : Z) : shared :=
       (upd (s_cells s) (file_of s g) v) (s_faults s) (s_sat s) (s_full s) (s_new s) (s_tight s).
 
 Definition with_pc (t : thread) (p : pc) : thread :=
-  mkT p (t_kind t) (t_st t) (t_amt t) (t_old t) (t_prev t) (t_tgt t) (t_after t).
+  mkT p (t_kind t) (t_st t) (t_amt t) (t_old t) (t_prev t) (t_prev2 t) (t_tgt t) (t_after t).
 Definition with_st (t : thread) (p : pc) (w : Z) : thread :=
-  mkT p (t_kind t) w (t_amt t) (t_old t) (t_prev t) (t_tgt t) (t_after t).
+  mkT p (t_kind t) w (t_amt t) (t_old t) (t_prev t) (t_prev2 t) (t_tgt t) (t_after t).
 Definition with_old (t : thread) (p : pc) (v : Z) : thread :=
-  mkT p (t_kind t) (t_st t) (t_amt t) v (t_prev t) (t_tgt t) (t_after t).
+  mkT p (t_kind t) (t_st t) (t_amt t) v (t_prev t) (t_prev2 t) (t_tgt t) (t_after t).
 (* the inline invalidate keeps its own copy of the word in t_old: t_st is
    releaseLock's saved state, used again by the CAS after lookup returns *)
 Definition with_st2 (t : thread) (p : pc) (w : Z) : thread :=
-  mkT p (t_kind t) (t_st t) (t_amt t) w (t_prev t) (t_tgt t) (t_after t).
+  mkT p (t_kind t) (t_st t) (t_amt t) w (t_prev t) (t_prev2 t) (t_tgt t) (t_after t).
 Definition with_amt (t : thread) (p : pc) (w a : Z) : thread :=
-  mkT p (t_kind t) w a (t_old t) (t_prev t) (t_tgt t) (t_after t).
+  mkT p (t_kind t) w a (t_old t) (t_prev t) (t_prev2 t) (t_tgt t) (t_after t).
 
 (* numbers of scheduler steps the real code spends on operations that do not
    touch the modelled state (list traversal, f.current reloads, sync.Once);
@@ -242,21 +245,16 @@ Definition step_thread (np : nops) (s : shared) (t : thread) : shared * thread :
       | Some _ => (s, with_pc t LLook2)
       end
   | LLook2 =>
-      match s_cur s, t_prev t with
+      match s_cur s, t_prev2 t with
       | Some g0, None =>
-          if s_full s && (match t_kind t with Adder => true | Changer => false end) then
-            (* (a changer reaches this lookup from its refresh only after it stored a
-               mapping of a new or just extended file, which has room: s_full is
-               clear by then; the first open of an EXISTING full file by a process
-               with pending counters is the one path on which a changer's own
-               lookup would extend the file, and is not modelled)
-               the record does not fit: newCounter1 extends the file, stores the new
+          if s_full s then
+            (* the record does not fit: newCounter1 extends the file, stores the new
                mapping, and returns a pointer into it; the cleanup (invalidate and
                refresh every counter, close the previous mapping) runs before
                lookup returns *)
             let g := length (s_maps s) in
             (mkS w (s_ptr s) (Some g) (s_maps s ++ [file_of s g0]) (s_closed s) (s_cells s) (s_faults s) (s_sat s) false (Some g) false,
-             mkT GIvLoad (t_kind t) (t_st t) (t_amt t) (t_old t) (Some g0) (t_tgt t) (t_after t))
+             mkT GIvLoad (t_kind t) (t_st t) (t_amt t) (t_old t) (t_prev t) (Some g0) (t_tgt t) (t_after t))
           else (set_ptr s (s_cur s), with_pc t LCas)
       | _, _ => (set_ptr s (s_cur s), with_pc t LCas)
       end
@@ -270,7 +268,7 @@ Definition step_thread (np : nops) (s : shared) (t : thread) : shared * thread :
       then (s, with_pc t GClose)
       else (s, with_pc t Crash)   (* refresh would take the lock the thread already holds: proved unreachable *)
   | GClose =>
-      match t_prev t with
+      match t_prev2 t with
       | Some g =>
           (mkS w (s_new s) (s_cur s) (s_maps s) (g :: s_closed s) (s_cells s) (s_faults s) (s_sat s) (s_full s) (s_new s) (s_tight s),
            with_pc t LCas)
@@ -294,7 +292,7 @@ Definition step_thread (np : nops) (s : shared) (t : thread) : shared * thread :
   | CPre => (s, with_pc t CStore)
   | CStore =>
       let g := length (s_maps s) in
-      let t' := mkT Done Changer (t_st t) (t_amt t) (t_old t) (s_cur s) (t_tgt t) Done in
+      let t' := mkT Done Changer (t_st t) (t_amt t) (t_old t) (s_cur s) (t_prev2 t) (t_tgt t) Done in
       match t_tgt t with
       | NewFile =>
           (mkS w (s_ptr s) (Some g) (s_maps s ++ [length (s_cells s)]) (s_closed s) (s_cells s ++ [0]) (s_faults s) (s_sat s) false (s_new s) false,
@@ -310,6 +308,9 @@ Definition step_thread (np : nops) (s : shared) (t : thread) : shared * thread :
           end
       | NoFile =>
           (mkS w (s_ptr s) None (s_maps s) (s_closed s) (s_cells s) (s_faults s) (s_sat s) (s_full s) (s_new s) (s_tight s),
+           goto_nops t' (n_after_store_rotate np) IvLoad)
+      | FullFile =>
+          (mkS w (s_ptr s) (Some g) (s_maps s ++ [length (s_cells s)]) (s_closed s) (s_cells s ++ [0]) (s_faults s) (s_sat s) true (s_new s) true,
            goto_nops t' (n_after_store_rotate np) IvLoad)
       end
   | CNop k =>
@@ -346,8 +347,8 @@ Definition step (np : nops) (st : state) (i : nat) : state :=
 
 Definition run (np : nops) (sched : list nat) (st : state) : state := fold_left (step np) sched st.
 
-Definition adder (n : Z) : thread := mkT AIdle Adder 0 n 0 None NoFile Done.
-Definition changer (tg : target) : thread := mkT CIdle Changer 0 0 0 None tg Done.
+Definition adder (n : Z) : thread := mkT AIdle Adder 0 n 0 None None NoFile Done.
+Definition changer (tg : target) : thread := mkT CIdle Changer 0 0 0 None None tg Done.
 
 Definition init_shared : shared := mkS 0 None None [] [] [] 0 false false None false.
 
